@@ -319,6 +319,57 @@ theorem gmeOverlap_sq_le (dims : List Nat) (rank : Nat) (S X : Nat → ℂ) (psi
   exact overlap_sq_le _ _ hφ
 
 
+/-! ## options: canonical-polyadic rank > 1, `_sqrt_rho` from the `eigh` output -/
+
+omit [StarRing R] in
+/-- **GME model with `CPrank > 1`**: the contraction is the overlap of each ensemble member with the canonical-polyadic vector
+`Φ_α = Σ_c coeff[α,c] ⊗_x psi_x[α,c]` (`cpVec`) -/
+theorem gmeOverlapCP_eq (dims : List Nat) (rank cp : Nat) (S X coeff : Nat → R) (psi : Nat → Nat → R) (al : Nat) :
+    gmeOverlapCP dims rank cp S X coeff psi al
+      = sumRange (prodL dims) fun k => ensembleVec rank S X al k * cpVec dims cp coeff psi al k := by
+  simp only [gmeOverlapCP, ensembleVec, cpVec, sumRange_eq_sum, Finset.sum_mul, Finset.mul_sum]
+  refine Finset.sum_congr rfl fun k _ => ?_
+  rw [Finset.sum_comm]
+  refine Finset.sum_congr rfl fun j _ => Finset.sum_congr rfl fun c _ => by ring
+
+/-- **[target, not proved in general] the normalisation contraction `contract_psi_psi` is the squared norm of the canonical-polyadic vector**,
+for every dimension list (needs the exchange of the product over parties with the sum over multi-indices, as in `sum_rowVec_sq`);
+probed (`model-gme:cp-normalisation`: the vectors returned by `get_state()` have unit norm to 1e-9) and tied exactly (`cpnorm`). -/
+def cpNormSq_eq_norm.Statement : Prop :=
+  ∀ (dims : List Nat) (cp : Nat) (coeff : Nat → ℂ) (psi : Nat → Nat → ℂ) (al : Nat), (∀ t, star (coeff t) = coeff t) →
+    cpNormSq dims cp coeff psi (fun x t => star (psi x t)) al
+      = sumRange (prodL dims) fun k => cpVec dims cp coeff psi al k * star (cpVec dims cp coeff psi al k)
+
+/-- the one-party case of `cpNormSq_eq_norm.Statement` -/
+theorem cpNormSq_eq_norm_partial (d cp : Nat) (coeff : Nat → ℂ) (psi : Nat → Nat → ℂ) (al : Nat) (hc : ∀ t, star (coeff t) = coeff t) :
+    cpNormSq [d] cp coeff psi (fun x t => star (psi x t)) al
+      = sumRange (prodL [d]) fun k => cpVec [d] cp coeff psi al k * star (cpVec [d] cp coeff psi al k) := by
+  simp only [cpNormSq, cpVec, sumRange_eq_sum, List.length_singleton, List.range_one, List.foldl_cons, List.foldl_nil, one_mul,
+    List.getD_cons_zero, prodL, mul_one, unflat, Nat.div_one, star_sum, star_mul', hc]
+  have hr : ∀ k ∈ Finset.range d,
+      (∑ c ∈ Finset.range cp, coeff (al * cp + c) * psi 0 ((al * cp + c) * d + k))
+        * (∑ c' ∈ Finset.range cp, coeff (al * cp + c') * star (psi 0 ((al * cp + c') * d + k)))
+      = ∑ c ∈ Finset.range cp, ∑ c' ∈ Finset.range cp,
+          coeff (al * cp + c) * coeff (al * cp + c') * (psi 0 ((al * cp + c) * d + k) * star (psi 0 ((al * cp + c') * d + k))) := by
+    intro k _
+    rw [Finset.sum_mul_sum]
+    refine Finset.sum_congr rfl fun c _ => Finset.sum_congr rfl fun c' _ => by ring
+  rw [Finset.sum_congr rfl hr]
+  conv_rhs => rw [Finset.sum_comm]
+  refine Finset.sum_congr rfl fun c _ => ?_
+  rw [Finset.sum_comm]
+  refine Finset.sum_congr rfl fun c' _ => ?_
+  rw [Finset.mul_sum]
+
+/-- **`_sqrt_rho` is a square root of the truncated spectral sum**: if `S[k,j] = v[k,j]·s_j` with real scales `s_j·s_j = λ_j`
+(`sqrtRhoScale`, theorem `sqrtRhoScale_sq` in `DecisionC13.lean`) then `Σ_j S[k,j] conj S[k',j] = Σ_j λ_j v[k,j] conj v[k',j]` — the hypothesis
+`ρ = S Sᴴ` of `ensembleVec_decomposition`, given the `eigh` contract `ρ = Σ_j λ_j v_j v_jᴴ` over the kept eigenpairs -/
+theorem sqrtRho_gram (rank : Nat) (v : Nat → Nat → R) (s lam : Nat → R) (hs : ∀ j, star (s j) = s j) (hsq : ∀ j, s j * s j = lam j) (k k' : Nat) :
+    sumRange rank (fun j => (v k j * s j) * conj (v k' j * s j)) = sumRange rank fun j => lam j * (v k j * conj (v k' j)) := by
+  simp only [sumRange_eq_sum, conj_eq_star, star_mul', hs]
+  refine Finset.sum_congr rfl fun j _ => ?_
+  rw [← hsq j]; ring
+
 /-! ## the hypotheses are satisfiable, the statements are not vacuous -/
 
 /-- an isometry exists for every size (the identity) -/
